@@ -66,9 +66,11 @@ def judge(ctx, trace):
     return recs, fails, tr
 
 
-def selftest(ctx, recs):
-    good = next((r for r in recs if len(r["groups"]) > 1 and not r["got"]["failed"]), None)
+def selftest(ctx, recs, tfails):
+    good = next((r for i, r in enumerate(recs, start=1) if len(r["groups"]) > 1 and not r["got"]["failed"] and i not in tfails), None)
     if good is None:
+        if tfails:      # every several-calls record violates the requirement: that is reported; nothing accepted to test the binding with
+            return "skipped: no several-calls record was accepted in this run", []
         raise core.Inconclusive("library self-test: no several-calls record")
     bad = json.loads(json.dumps(good))
     bad["got"]["objects"][0]["name"] += "X"
@@ -107,7 +109,7 @@ def run_part(ctx):
             fails.append(("C15/library/%s/%s" % (clause, cls), what, {"part": "library", "record": rec}, None))
     if not any(k.startswith("several-calls") for k in classes) or accepted + len(tfails) == 0:
         raise core.Inconclusive("library part is vacuous: %s" % classes)
-    note, st = selftest(ctx, recs)
+    note, st = selftest(ctx, recs, tfails)
     tlc += st
     cov = {"library_ways_of_giving_transformations": mc["distinct"] - 1, "library_records_judged_by_tlc": len(recs),
            "library_records_accepted": accepted, "library_classes": classes, "library_binding_selftest": note,
